@@ -67,6 +67,9 @@ def run(ctx):
             if tag == "DoubleSend":
                 continue   # needs an I/O failure inside the closure: exercised by the request matrix (comment/uncreatable)
             scens.append(s)
+    r = vlib.run_tlc(ctx, "Lifecycle", "LifecyclePollOnce.cfg", workers=8, timeout=900)
+    if r.violated:   # design variant: the waiting client looks at the source only once
+        scens.extend([L.scen_from_cex(r, "LifecyclePollOnce.cfg", "deviation:PollOnce:%s" % r.violated)] * 2)
     scens += L.witness_scens(ctx, repeat=6 if q else 20)
     n = 40 if q else 400
     scens += L.sim_scens(ctx, "LifecycleSim.cfg", n)
